@@ -23,7 +23,10 @@ import (
 	"google.golang.org/protobuf/reflect/protodesc"
 	"google.golang.org/protobuf/types/descriptorpb"
 	"google.golang.org/protobuf/types/known/anypb"
+	"google.golang.org/protobuf/types/known/durationpb"
 	"google.golang.org/protobuf/types/known/emptypb"
+	"google.golang.org/protobuf/types/known/timestamppb"
+	"google.golang.org/protobuf/types/known/wrapperspb"
 	"google.golang.org/protobuf/types/pluginpb"
 )
 
@@ -81,6 +84,12 @@ func WellKnown(name string) *descriptorpb.FileDescriptorProto {
 		return protodesc.ToFileDescriptorProto(descriptorpb.File_google_protobuf_descriptor_proto)
 	case "google/protobuf/any.proto":
 		return protodesc.ToFileDescriptorProto(anypb.File_google_protobuf_any_proto)
+	case "google/protobuf/timestamp.proto":
+		return protodesc.ToFileDescriptorProto(timestamppb.File_google_protobuf_timestamp_proto)
+	case "google/protobuf/duration.proto":
+		return protodesc.ToFileDescriptorProto(durationpb.File_google_protobuf_duration_proto)
+	case "google/protobuf/wrappers.proto":
+		return protodesc.ToFileDescriptorProto(wrapperspb.File_google_protobuf_wrappers_proto)
 	}
 	return nil
 }
